@@ -119,7 +119,7 @@ def with_proj(runs, proj):
 
 PROPS.update({
     "C02": {
-        "modules": ["VmMem.Props.C02"], "theorems": T("C02"),
+        "modules": ["VmMem.Props.C02", "VmMem.Props.C02t"], "theorems": T("C02") + T("C02t"),
         "runs": lambda tier: runs_gm(tier, ["exhaustive", "mixed", "edit"], {"ops": QUERY_OPS + ["g.insert", "g.remove"], "drop": ["h=", "d="]}),
         "trusted_base": ["slice::binary_search_by_key contract on a slice strictly sorted by key (model parameter `bsearch`; exercised)"],
         "assumptions": ["regions are built through the safe constructors (non-empty, start+len < 2^64): hypothesis WF, discharged for the mmap backend by C10"],
